@@ -29,11 +29,30 @@ def phi_reads(cf, D):
     right-hand side r = phi/dt) means the coefficients do not depend on the density.  Independent of the template parse."""
     solver = 'tridiag' if D == 1 else 'tridiag_premalloc'
     reads, writes = [], []
+    rhs_arrays = {}
+
+    def scaled_copy(st):
+        """R[..] = c * phi[..] with c free of phi (the right-hand side phi/dt, also when an iteration of its loop is written out
+        separately): the array R, else None"""
+        if not (st.op == '=' and isinstance(st.target, ast.Subscript) and isinstance(st.target.value, ast.Name) and st.target.value.id != 'phi'):
+            return None
+        try:
+            v = Translator({}, index_hook=lambda tr_, e: Rat.atom('PHI') if isinstance(e.value, ast.Name) and e.value.id == 'phi' else None).tr(st.value)
+            c = v / Rat.atom('PHI')
+        except AlgebraError:
+            return None
+        if 'PHI' in c.atoms() or any('phi' == a.split('[')[0] for a in c.atoms()):
+            return None
+        return st.target.value.id
     for st in cf.walk():
         if isinstance(st, CAssign):
-            for n in ast.walk(st.value):
-                if isinstance(n, ast.Name) and n.id == 'phi':
-                    reads.append(st.line)
+            if any(isinstance(n, ast.Name) and n.id == 'phi' for n in ast.walk(st.value)):
+                arr = scaled_copy(st)
+                if arr is not None and any(isinstance(n, ast.Name) and n.id == 'phi' for n in ast.walk(st.target)) is False:
+                    if arr in rhs_arrays:
+                        continue           # a further piece of the same right-hand side
+                    rhs_arrays[arr] = st.line
+                reads.append(st.line)
             if isinstance(st.target, ast.Subscript) and unparse(st.target.value) == 'phi':
                 writes.append(st.line)
         elif isinstance(st, CExpr):
